@@ -518,7 +518,10 @@ Example C14_mutation_exhaustive :
   all_pairs T1 (key_check T1) 1 = true /\ all_pairs T2 (key_check T2) 1 = true /\
   all_pairs T1 (mouse_check T1) 2 = true /\ all_pairs T2 (mouse_check T2) 2 = true /\
   all_pairs T1 (fun cl _ => seq_check T1 cl) 34 = true.
-Proof. repeat split; vm_compute; reflexivity. Qed.
+Proof.
+  split; [vm_compute; reflexivity|]. split; [vm_compute; reflexivity|]. split; [vm_compute; reflexivity|].
+  split; vm_compute; reflexivity.
+Qed.
 
 (* the shapes named in the task, on T1: (handler, target) *)
 Definition shapes : list (Z * Z * Z) :=
